@@ -67,6 +67,20 @@ pub(crate) struct TransportedSender<Codec> {
     bytes_written: u64,
 }
 
+/// A sender in transport, borrowing the parts of a [Sender].
+///
+/// Serializes exactly like [TransportedSender]. Serialization must not consume the sender:
+/// a value is serialized twice when it does not fit into one message, and it is handed back
+/// to the caller when sending fails.
+#[derive(Serialize)]
+#[serde(rename = "TransportedSender")]
+#[serde(bound(serialize = "Codec: codec::Codec"))]
+struct TransportedSenderRef<'a, Codec> {
+    bin_sender: &'a Option<bin::Sender>,
+    size_mode: &'a SizeMode<Codec>,
+    bytes_written: u64,
+}
+
 impl<Codec> Sender<Codec> {
     /// Creates a new sender.
     pub(super) fn new(bin_sender: bin::Sender, size_mode: SizeMode<Codec>) -> Self {
@@ -254,14 +268,17 @@ where
     where
         S: serde::Serializer,
     {
-        let bin_sender = self.bin_sender.lock().unwrap().take();
-        let size_mode = mem::replace(
-            &mut *self.size_mode.lock().unwrap(),
-            SizeMode::Known(0), // Placeholder, sender is consumed anyway
-        );
+        // The halves are dropped (and thereby handed over, if they are forwarded) together
+        // with this sender once the value has been sent.
+        let bin_sender = self.bin_sender.lock().unwrap();
+        let size_mode = self.size_mode.lock().unwrap();
 
-        TransportedSender::<Codec> { bin_sender, size_mode, bytes_written: self.bytes_written }
-            .serialize(serializer)
+        TransportedSenderRef::<Codec> {
+            bin_sender: &bin_sender,
+            size_mode: &size_mode,
+            bytes_written: self.bytes_written,
+        }
+        .serialize(serializer)
     }
 }
 
